@@ -256,11 +256,14 @@ impl Request {
 
         r.next_if(|b| *b==b' ').ok_or_else(Response::BadRequest)?;
         
-        self.path.init_with_request_bytes(r.read_while(|b| !matches!(b, b' ' | b'?')))?;
+        /* a request target has no raw control characters: a CR LF in it would hide a line break inside the request line */
+        let path_bytes = r.read_while(|b| !matches!(b, b' ' | b'?'));
+        (!path_bytes.iter().any(u8::is_ascii_control)).then_some(()).ok_or_else(Response::BadRequest)?;
+        self.path.init_with_request_bytes(path_bytes)?;
 
         if r.consume_oneof([" ", "?"]).ok_or_else(Response::BadRequest)? == 1 {
             let query_bytes = r.read_while(|b| b != &b' ');
-            (!query_bytes.contains(&b'\0')).then_some(()).ok_or_else(Response::BadRequest)?;
+            (!query_bytes.iter().any(u8::is_ascii_control)).then_some(()).ok_or_else(Response::BadRequest)?;
             self.query = QueryParams::new(query_bytes);
             r.next_if(|b| *b==b' ').ok_or_else(Response::BadRequest)?;
         }
